@@ -23,6 +23,16 @@ fn judge_modify(j: &mut Judge, exp: &model::Expect, out: &Outcome, before_cfg: &
             format!("{} accepted although: {}", msg, why.join("; ")),
         );
     }
+    if let Some(after) = after_cfg {
+        if after.executors.is_empty() || (after.approvers.is_empty() && !before_cfg.approvers.is_empty()) {
+            j.violate(
+                Prop::C12,
+                "list-set-empty",
+                origin,
+                format!("after {} the configuration has executors {:?} and approvers {:?}", msg, after.executors, after.approvers),
+            );
+        }
+    }
     if let (Some(e), Some(after)) = (exp.alts.first(), after_cfg) {
         if !cfg_equiv(&e.cfg, after) {
             j.violate(
